@@ -41,6 +41,7 @@ def explore(res, rng, n, exhaustive=None):
     cyc.config_stream(res, cyc.NAMES, [c for c in cases if c[1] < 0][: max(20, n // 12)])
     runs = cyc.correspondence(res, cyc.NAMES, cases, pred)
     cyc.micro_stream(res, cyc.NAMES, rng, max(30, n // 25), pred)
+    cyc.extreme_scale_stream(res, cyc.NAMES, rng, max(12, n // 60))
     cyc.caller_array_stream(res, cyc.NAMES, rng, max(10, n // 100))
     for name, h, s, out in runs:
         res.stat('counter_' + name)
